@@ -135,7 +135,7 @@ func (g *Gen) seed() float64 {
 	case 1:
 		return float64(r.Range(1, 20))
 	default:
-		return float64(r.Range(0, 1_000_000))
+		return float64(r.Range(0, 1000000))
 	}
 }
 
@@ -305,8 +305,45 @@ func (g *Gen) Valid() *Req {
 		}
 		body["biases"] = bl
 	}
+	if r.Bool(0.12) {
+		// clients send fields the service does not know (comments, client-side ids, misspelt
+		// options): they are ignored - and must stay ignored in a repeatable way
+		g.extraFields(body)
+	}
 	q.Body = body
 	return q
+}
+
+// extraFields adds two or three unknown keys to one object of the request.
+func (g *Gen) extraFields(body J) {
+	r := g.R
+	var targets []J
+	targets = append(targets, body)
+	if mp := jmap(body["methodParameters"]); mp != nil {
+		targets = append(targets, mp)
+	}
+	for _, e := range jarr(body["biases"]) {
+		if m := jmap(e); m != nil {
+			targets = append(targets, m, m) // bias entries twice as likely
+			if p := jmap(m["props"]); p != nil {
+				targets = append(targets, p)
+			}
+		}
+	}
+	for _, c := range jarr(body["criteria"]) {
+		if m := jmap(c); m != nil {
+			targets = append(targets, m)
+		}
+	}
+	t := targets[r.Intn(len(targets))]
+	names := []string{"comment", "clientId", "note", "aplyProbability", "enabled", "label", "x-meta"}
+	p := r.Perm(len(names))
+	for i := 0; i < r.Range(2, 3); i++ {
+		k := names[p[i]]
+		if _, exists := t[k]; !exists {
+			t[k] = []interface{}{"free text", 7.0, true, J{"a": 1.0}}[r.Intn(4)]
+		}
+	}
 }
 
 func (g *Gen) weightsFor(q *Req) J {
